@@ -28,3 +28,34 @@ Theorem C01_parser_terminates :
   forall (wordc : N -> bool) (s : str), parse wordc s <> inl EFuel.
 Proof. exact parse_total. Qed.
 Print Assumptions C01_parser_terminates.
+
+(* Route.parse_rule on a printed well-formed rule returns the fold of the
+   ABSTRACT segments (literal text; wildcard name / filter key / selector) —
+   hence two spellings of one abstract rule in different syntax flavours
+   ("every rule syntax flavour") give the same pattern, the same parameter
+   names and the same filters, for every interpretation of \w that excludes
+   the delimiters. *)
+From Verif Require Import model.ParseRule proofs.C01_parse_rule.
+Theorem C01_parse_rule_of_printed_rule :
+  forall (wordc : N -> bool),
+    (forall c, In c [ch_slash; ch_gt; ch_rbrace; ch_dot; ch_colon; ch_lpar] -> wordc c = false) ->
+    forall l : list seg, segs_ok wordc l ->
+      parse_rule wordc (ch_slash :: print l)
+      = inr (fold_items (items_abs (map abs_of_seg l)) 0 (mkParsed [] [] [] [])).
+Proof. exact parse_rule_print. Qed.
+Print Assumptions C01_parse_rule_of_printed_rule.
+
+Theorem C01_parse_rule_flavour_independent :
+  forall (wordc : N -> bool),
+    (forall c, In c [ch_slash; ch_gt; ch_rbrace; ch_dot; ch_colon; ch_lpar] -> wordc c = false) ->
+    forall l l' : list seg,
+      segs_ok wordc l -> segs_ok wordc l' -> map abs_of_seg l = map abs_of_seg l' ->
+      parse_rule wordc (ch_slash :: print l) = parse_rule wordc (ch_slash :: print l').
+Proof. exact parse_rule_flavour_independent. Qed.
+Print Assumptions C01_parse_rule_flavour_independent.
+
+(* non-vacuity: u/<id:int>/{n} and u/{id.int}/:n are different texts of one abstract rule *)
+Example C01_flavours_nonvacuous :
+  segs_ok ascii_wordc rule_a /\ segs_ok ascii_wordc rule_b
+  /\ map abs_of_seg rule_a = map abs_of_seg rule_b /\ print rule_a <> print rule_b.
+Proof. exact rules_ab_ok. Qed.
